@@ -111,6 +111,7 @@ def mutants_for(lines, a, b, limit):
 
 # survivors that are equivalent by inspection: (regex on the mutant description, reason)
 EQUIVALENT = [
+    (re.compile(r'relational .*`while \w+ < [\w.]+\.len\(\) && \w+ < '), 'loop header generated by rule R6 for .take(K): with K <= len the first conjunct is implied (K > len is an index-out-of-bounds obligation and is killed)'),
     (re.compile(r'swap-register-operands .*Code::(BEQ|BNE)\('), 'BEQ/BNE compare for (in)equality: operand order is immaterial'),
     (re.compile(r'off-by-one .*unset_halfwords = 0'), 'only biases the MOVZ-vs-MOVN choice; both encodings load the same value (cost heuristic, no property)'),
 ]
